@@ -32,6 +32,12 @@ temporary directory (one file per wind field; see ``vf/ref/c16_wind.py``):
   in vertically sheared fields, around base altitudes inside a layer, on a file pressure
   level and in the stratosphere; every answer judged against the reference.
 
+* every (file: hourly slices with different winds, no time axis, neighbouring days across a
+  month end / year end / leap day, a date without a file) x hour (0, 12, 23, one more) x
+  time within the hour (:00:00, :00:01, :01, :29, :29:59.999999, :30, :30:01, :31, :59,
+  :59:59, :59:59.999999): the wind is that of the day's file and of the hourly slice the time
+  stamp falls into.
+
 Every case builds its own Weather object(s), so a case is self-contained and replays in a
 fresh process; the calls of the first four families are grouped so that one case asks one
 object for the same point several times (different headings / airspeeds).
@@ -75,7 +81,10 @@ ASSUMPTIONS = [
     'outside the extreme pressure levels (the 1-ulp neighbourhood of the extreme levels is not examined); a '
     'refusal is any exception raised by the call (ValueError in practice)',
     'a time stamp whose date has no file in the data directory is outside the data domain (refusal = any '
-    'exception, FileNotFoundError in practice); time stamps are timezone-aware UTC on exact hours; longitudes use the same -180..180 convention as the file',
+    'exception, FileNotFoundError in practice); time stamps are timezone-aware UTC; for a time that is not a full hour the '
+    'wind is that of the hourly slice whose index is the hour of the time stamp ("hour of departure" in the code; no '
+    'interpolation in time): a value matching the FOLLOWING slice instead is reported as kind time-slice, anything else as '
+    'vector-sum; longitudes use the same -180..180 convention as the file',
     'known finding C16-heading-components-swapped is attributed only when the returned value equals '
     'hypot(TAS*cos(h)+u, TAS*sin(h)+v) within 1e-9 relative (every one of the 8 values for a rotation group)',
 ]
@@ -115,6 +124,12 @@ def _catalogue():
     assert day[0] <= 28
     # same day-of-month as 'rot', one month later (September has 30 days)
     add('rot-next-month', W.rotating(35.0, 100.0), time_axis=True, offset=cat['rot']['offset'] + 30)
+    # neighbouring days across a month end, a year end, and a leap day (different winds each)
+    add('sep30', W.rotating(25.0, 200.0), time_axis=True, offset=29)
+    add('oct01', W.rotating(25.0, 20.0), time_axis=True, offset=30)
+    add('dec31', W.rotating(30.0, 50.0), time_axis=True, offset=121)
+    add('jan01', W.rotating(30.0, 230.0), time_axis=True, offset=122)
+    add('feb29', W.rotating(12.0, 300.0), time_axis=True, offset=-185)
     return cat
 
 
@@ -215,7 +230,14 @@ ALT_STEPS_T = [0.0, 1.0, 5.0, 20.0, 100.0, 200.0, 1000.0, -1.0, -5.0, -20.0]
 ALT_STEPS_TRIPLE = [0.0, 1.0, 5.0, 20.0, 200.0]
 ALT_QUERY = {'h': 45.0, 'tas': 200.0}
 
-SEQ_STAMPS = [['E10', 0], ['E10', 12], ['rot', 0], ['rot', 5], ['rot', 23], ['rot-next-month', 5], ['N50', 5], ['no-file-between', 5]]
+# time within the hour and the day (hour, minute, second, microsecond)
+TOD_HOURS = [0, 12, 23]
+INT_HOUR = [6, 17, 3, 21, 9, 14, 1, 19]  # VERIF_SEED picks one
+TOD_WITHIN = [[0, 0, 0], [0, 0, 1], [0, 1, 0], [29, 0, 0], [29, 59, 999999], [30, 0, 0], [30, 0, 1], [31, 0, 0], [59, 0, 0], [59, 59, 0], [59, 59, 999999]]
+TOD_FILES = ['rot', 'ml-rot', 'ml1', 'sep30', 'oct01', 'dec31', 'jan01', 'feb29', 'no-file-between']
+TOD_HEADINGS = [45.0, 0.0]
+
+SEQ_STAMPS = [['E10', 0], ['E10', 12], ['rot', 0], ['rot', 5], ['rot', 23], ['rot-next-month', 5], ['N50', 5], ['no-file-between', 5], ['rot', [5, 40, 0, 0]]]
 SEQ_QUERY = {'h': 45.0, 'tas': 200.0, 'alt': 9144.0, 'lon': -77.0, 'lat': 41.0}  # heading 45: sin = cos
 
 
@@ -284,6 +306,12 @@ def sublattices(tier, seed):
         'axes': {'field': ['rot', 'rot-next-month', 'nodal-t', 'ml-rot'], 'hour': hours, 'calls_heading': hc},
         'cases': cases,
     })  # fmt: skip
+    thours = TOD_HOURS + [INT_HOUR[seed % 8]]
+    subs.append({
+        'name': 'time within the hour and the day x file (hourly slices with different winds, month / year ends)',
+        'axes': {'field': TOD_FILES, 'hour': thours, 'minute_second_microsecond': TOD_WITHIN, 'calls_heading': TOD_HEADINGS},
+        'cases': [{'k': 'tod', 'f': f, 't': [hr] + w, 'alt': alt0, 'pos': pos0} for f in TOD_FILES for hr in thours for w in TOD_WITHIN],
+    })  # fmt: skip
     n = 4 if thorough else 3
     seqs = [list(s) for k in range(1, n + 1) for s in itertools.product(range(len(SEQ_STAMPS)), repeat=k)]
     subs.append({
@@ -324,8 +352,15 @@ def worker_init(tier, seed):
     _STATE.update(Weather=Weather, Point=GroundTrack.Point, Location=Location, pd=pd, dir=_data_dir(), fresh={}, rep_fresh={})
 
 
-def _stamp(fid, hour):
-    return _STATE['pd'].Timestamp(DAY0 + 86400 * _offset(fid) + 3600 * hour, unit='s', tz='UTC')
+def _hms(t):
+    """A time of day is an hour number or [hour, minute, second, microsecond]."""
+    return (int(t), 0, 0, 0) if not isinstance(t, (list, tuple)) else tuple(int(x) for x in t)
+
+
+def _stamp(fid, t):
+    h, mi, sec, us = _hms(t)
+    ns = (DAY0 + 86400 * _offset(fid) + 3600 * h + 60 * mi + sec) * 10**9 + us * 1000
+    return _STATE['pd'].Timestamp(ns, unit='ns', tz='UTC')
 
 
 def _new_weather():
@@ -366,7 +401,7 @@ def _expect(fid, hour, lon, lat, alt):
     if not W.P_LO <= p <= W.P_HI:
         return ('outside', f'pressure {p!r} hPa at {alt!r} m is outside [{W.P_LO}, {W.P_HI}] hPa')
     e = CATALOGUE[fid]
-    u, v = W.wind_at(e['spec'], hour if e['time_axis'] else 0, p, lat, lon)
+    u, v = W.wind_at(e['spec'], _hms(hour)[0] if e['time_axis'] else 0, p, lat, lon)
     return ('inside', u, v, p)
 
 
@@ -483,7 +518,7 @@ def _run_seq(case):
     out, classes = [], []
     q = SEQ_QUERY
     wx = _new_weather()
-    names = [f'{SEQ_STAMPS[i][0]}@{SEQ_STAMPS[i][1]:02d}h' for i in case['s']]
+    names = [f'{SEQ_STAMPS[i][0]}@' + '{:02d}:{:02d}'.format(*_hms(SEQ_STAMPS[i][1])[:2]) for i in case['s']]
     for n, i in enumerate(case['s']):
         fid, hour = SEQ_STAMPS[i]
         r = _call(wx, fid, hour, q['lon'], q['lat'], q['alt'], q['tas'], q['h'], 'explicit')
@@ -552,6 +587,32 @@ def _run_alt(case):
     return {'outcome': _outcome('alt', classes), 'nontrivial': True, 'violations': out}
 
 
+def _run_tod(case):
+    """Queries at a time that is not a full hour: the hourly slice the time stamp falls into
+    (index = hour of the time stamp, the documented 'hour of departure' slice) supplies the wind."""
+    out, classes = [], []
+    fid, t = case['f'], case['t']
+    (_, alt), (_, lon, lat) = case['alt'], case['pos']
+    exp = _expect(fid, t, lon, lat, alt)
+    h, mi, sec, us = _hms(t)
+    nxt = None  # the wind one slice later (a "nearest slice" reading), to name the deviation
+    if exp[0] == 'inside' and CATALOGUE[fid]['time_axis'] and h < 23:
+        nxt = _expect(fid, h + 1, lon, lat, alt)
+    wx = _new_weather()
+    for n, hd in enumerate(TOD_HEADINGS):
+        what = (f'call {n + 1} on one Weather object: get_ground_speed(field {fid}, time of day {h:02d}:{mi:02d}:{sec:02d}.{us:06d}, ({lon}, {lat}), '
+                f'altitude {alt!r} m, TAS 200.0, heading {hd})')  # fmt: skip
+        r = _call(wx, fid, t, lon, lat, alt, 200.0, hd, 'explicit')
+        mine = []
+        classes.append(_check_call(r, exp, 200.0, hd, what, mine))
+        if mine and r[0] == 'gs' and nxt is not None and any(v['kind'] == 'vector-sum' and not v['finding'] for v in mine):
+            if _close(r[1], W.ground_speed(200.0, hd, nxt[1], nxt[2])) or _close(r[1], W.ground_speed_components_exchanged(200.0, hd, nxt[1], nxt[2])):
+                mine = [V('time-slice', f'{what}: returned {r[1]!r}, which is the speed for the wind of the {h + 1:02d}:00 slice; the time stamp lies in the '
+                          f'{h:02d}:00 slice (hour of the time stamp)')]  # fmt: skip
+        out += mine
+    return {'outcome': _outcome('tod', classes), 'nontrivial': True, 'violations': out}
+
+
 def replay(case):
     """A case is self-contained (own Weather objects). Defects that depend on the interpreter's
     memory layout (e.g. a cache keyed on id()) may need several attempts to show again."""
@@ -562,7 +623,7 @@ def replay(case):
     return []
 
 
-_RUN = {'alt': _run_alt, 'grp': _run_grp, 'rot': _run_rot, 'seq': _run_seq, 'rep': _run_rep}
+_RUN = {'tod': _run_tod, 'alt': _run_alt, 'grp': _run_grp, 'rot': _run_rot, 'seq': _run_seq, 'rep': _run_rep}
 
 
 def run_case(case):
